@@ -376,6 +376,12 @@ q_number::q_number(const z_number &z) {
 q_number::q_number(const z_number &num, const z_number &den) {
   mpz_init_set(mpq_numref(_n), num._n);
   mpz_init_set(mpq_denref(_n), den._n);
+  // GMP requires a positive denominator (mpq_set, mpq_cmp, ...): put the
+  // fraction in canonical form. A zero denominator is left as it is and is
+  // reported by the operations that divide.
+  if (mpz_sgn(mpq_denref(_n)) != 0) {
+    mpq_canonicalize(_n);
+  }
 }
 
 q_number q_number::from_mpq_t(mpq_t mp) {
